@@ -1,1 +1,155 @@
-(* to be filled *)
+(* C17Link: what LdSem does with the asserts, the required symbols and the _gp assignments. *)
+From Slinky Require Import Model.Types Model.Generated Model.Runtime Model.Style Model.Script Model.Writer Model.LdSem.
+From Slinky Require Import Spec.C17 Spec.C04 Proofs.C06 Proofs.C18 Proofs.C17 Proofs.LdLemmas Proofs.C04.
+From Coq Require Import Lia ZArith.
+Local Open Scope Z_scope.
+
+Lemma app_tail_neq {A} (l : list A) e : (l ++ [e])%list <> l.
+Proof.
+  intro E. assert (H : List.length (l ++ [e]) = List.length l) by (rewrite E; reflexivity).
+  rewrite app_length in H. simpl in H. lia.
+Qed.
+
+Section Link.
+  Variables (env : list (string * Z)) (senv : list osec) (ext : list (string * Z)) (final : bool).
+
+  Notation top := (exec_top_stmt env senv ext final).
+  Notation secs vma sub name := (exec_sec_stmt env senv ext final vma sub name).
+
+  (* ---------- ASSERT ---------- *)
+
+  Theorem assert_fails st cond msg :
+    eval_raw env ext st cond = Ok 0 -> top st (SAssert cond msg) = add_err (LAssertFailed msg) st.
+  Proof. intro H. cbn [exec_top_stmt]. rewrite H. reflexivity. Qed.
+
+  Theorem assert_holds st cond msg v :
+    eval_raw env ext st cond = Ok v -> v <> 0 -> top st (SAssert cond msg) = st.
+  Proof.
+    intros H Hv. cbn [exec_top_stmt]. rewrite H. destruct (v =? 0) eqn:E; [apply Z.eqb_eq in E; contradiction|reflexivity].
+  Qed.
+
+  (* the failure message is reported exactly when the condition evaluates to 0 *)
+  Theorem assert_iff st cond msg :
+    l_errors (top st (SAssert cond msg)) = (l_errors st ++ [LAssertFailed msg])%list <->
+    eval_raw env ext st cond = Ok 0.
+  Proof.
+    split.
+    - cbn [exec_top_stmt]. destruct (eval_raw env ext st cond) as [v|e].
+      + destruct (v =? 0) eqn:E; [apply Z.eqb_eq in E; subst; reflexivity|].
+        intro H. symmetry in H. apply app_tail_neq in H. contradiction.
+      + destruct e; try (destruct final; cbn [add_err l_errors]; intro H;
+          [apply app_inv_head in H; discriminate | symmetry in H; apply app_tail_neq in H; contradiction]).
+        cbn [add_err l_errors]. intro H. apply app_inv_head in H. discriminate.
+    - intro H. rewrite (assert_fails st cond msg H). reflexivity.
+  Qed.
+
+  (* ---------- required symbols: ASSERT(DEFINED(n), ...) ---------- *)
+
+  Lemma substring_0_app n r : substring 0 (String.length n) (n ++ r) = n.
+  Proof.
+    induction n as [|c n IH]; cbn [String.length append substring].
+    - destruct r; reflexivity.
+    - rewrite IH. reflexivity.
+  Qed.
+
+  Lemma defined_arg_required n : defined_arg ("DEFINED(" ++ n ++ ")") = Some n.
+  Proof.
+    unfold defined_arg.
+    assert (Hp : String.prefix "DEFINED(" ("DEFINED(" ++ n ++ ")") = true).
+    { apply String.prefix_correct. apply (substring_0_app "DEFINED("). }
+    assert (He : ends_with_char ")" ("DEFINED(" ++ n ++ ")") = true).
+    { unfold ends_with_char. rewrite <- (append_assoc "DEFINED(" n ")"). rewrite last_char_app by discriminate. reflexivity. }
+    rewrite Hp, He. cbn [andb]. f_equal.
+    assert (Hl : (String.length ("DEFINED(" ++ n ++ ")") - 9 = String.length n)%nat).
+    { rewrite !slen_app. cbn [String.length]. lia. }
+    rewrite Hl. cbn [append substring]. apply substring_0_app.
+  Qed.
+
+  Theorem required_value st n :
+    eval_raw env ext st ("DEFINED(" ++ n ++ ")") = Ok (b2z (is_some (sym_lookup n st env ext))).
+  Proof. unfold eval_raw. rewrite defined_arg_required. reflexivity. Qed.
+
+  (* the link fails with the documented message iff the symbol is defined nowhere: not by the script
+     so far in this pass, not by the previous pass, not by the objects *)
+  Theorem required_link st n :
+    (sym_lookup n st env ext = None ->
+     top st (SAssert ("DEFINED(" ++ n ++ ")") (required_msg n)) = add_err (LAssertFailed (required_msg n)) st) /\
+    (forall v, sym_lookup n st env ext = Some v ->
+     top st (SAssert ("DEFINED(" ++ n ++ ")") (required_msg n)) = st).
+  Proof.
+    split.
+    - intro H. apply assert_fails. rewrite required_value, H. reflexivity.
+    - intros v H. apply (assert_holds st _ _ 1); [|discriminate]. rewrite required_value, H. reflexivity.
+  Qed.
+
+  Theorem required_iff st n :
+    l_errors (top st (SAssert ("DEFINED(" ++ n ++ ")") (required_msg n))) =
+    (l_errors st ++ [LAssertFailed (required_msg n)])%list <->
+    sym_lookup n st env ext = None.
+  Proof.
+    rewrite assert_iff, required_value. destruct (sym_lookup n st env ext); cbn; split; intro H;
+      try reflexivity; try discriminate.
+  Qed.
+
+  (* EXTERN(n) itself does nothing to the layout *)
+  Theorem extern_noop st n : top st (SExtern n) = st.
+  Proof. reflexivity. Qed.
+
+  (* ---------- _gp ---------- *)
+
+  Lemma gp_mod here off : (here + off mod 4294967296) mod 4294967296 = (here + off) mod 4294967296.
+  Proof. apply Zplus_mod_idemp_r. Qed.
+
+  (* _gp = . + 0x<offset as u32>, then START = .  (both inside the output section) *)
+  Theorem gp_value vma sub name ss p h off START :
+    (p && is_some (lookup "_gp" ext))%bool = false -> START <> "_gp"%string ->
+    let ss' := fold_left (secs vma sub name) [SAssign p h false "_gp" (EDotPlus off); linker_symbol START EDot] ss in
+    let here := vma + s_off ss in
+    s_off ss' = s_off ss /\
+    lookup START (l_syms (s_st ss')) = Some here /\
+    lookup "_gp" (l_syms (s_st ss')) = Some (here + off mod 4294967296) /\
+    (here + off mod 4294967296) mod 4294967296 = (here + off) mod 4294967296.
+  Proof.
+    intros Hp Hs ss' here.
+    set (ss1 := secs vma sub name ss (SAssign p h false "_gp" (EDotPlus off))).
+    assert (E1 : ss1 = SState (s_off ss) (s_contents ss)
+                              (set_sym "_gp" (here + off mod 4294967296) p (s_st ss))).
+    { unfold ss1. cbn [exec_sec_stmt eval_expr]. unfold assign. rewrite Hp. reflexivity. }
+    assert (E2 : ss' = SState (s_off ss) (s_contents ss)
+                              (set_sym START here false (set_sym "_gp" (here + off mod 4294967296) p (s_st ss)))).
+    { unfold ss'. cbn [fold_left]. fold ss1. rewrite E1. unfold linker_symbol.
+      cbn [exec_sec_stmt eval_expr s_off s_st s_contents]. rewrite assign_ok. reflexivity. }
+    rewrite E2. cbn [s_off s_st].
+    split; [reflexivity|]. split; [apply lookup_set_sym_same|]. split; [|apply gp_mod].
+    rewrite lookup_set_sym_other by assumption. apply lookup_set_sym_same.
+  Qed.
+
+  (* PROVIDE(_gp = ...) when an object already defines _gp: the object's definition stays *)
+  Theorem gp_provided_elsewhere vma sub name ss h off :
+    is_some (lookup "_gp" ext) = true ->
+    s_st (secs vma sub name ss (SAssign true h false "_gp" (EDotPlus off))) = s_st ss.
+  Proof. intro H. cbn [exec_sec_stmt s_st eval_expr]. unfold assign. rewrite H. reflexivity. Qed.
+
+  (* the hard-coded value *)
+  Theorem gp_hardcoded st v :
+    top st (SAssign false false false "_gp" (EHex8 v)) = set_sym "_gp" (Z.of_N v) false st.
+  Proof. reflexivity. Qed.
+
+  Theorem gp_hardcoded_value st v :
+    lookup "_gp" (l_syms (top st (SAssign false false false "_gp" (EHex8 v)))) = Some (Z.of_N v).
+  Proof. rewrite gp_hardcoded. apply lookup_set_sym_same. Qed.
+End Link.
+
+(* the section start symbol is never _gp *)
+Lemma section_start_not_gp sty seg sec : segment_section_start sty seg sec <> "_gp"%string.
+Proof. apply (style_name_neq sty); [sn|reflexivity]. Qed.
+
+(* an i32 offset: its u32 image is itself when non-negative, itself + 2^32 when negative *)
+Lemma gp_offset_image off :
+  -2147483648 <= off < 2147483648 ->
+  off mod 4294967296 = if off <? 0 then off + 4294967296 else off.
+Proof.
+  intro H. destruct (off <? 0) eqn:E.
+  - apply Z.ltb_lt in E. symmetry. apply (Zmod_unique _ _ (-1)); lia.
+  - apply Z.ltb_ge in E. apply Z.mod_small. lia.
+Qed.
